@@ -780,7 +780,7 @@ func (prog *Program) genSynth(p0 *packages.Package) (string, error) {
 		sort.Strings(lps)
 		for _, k := range lps {
 			lc := fc.Loops[k]
-			for _, cl := range append(append([]*Clause{}, lc.Invariants...), lc.Steps...) {
+			for _, cl := range append(append(append([]*Clause{}, lc.Invariants...), lc.Steps...), lc.Entries...) {
 				if err := emit(cl, false, k, "bool"); err != nil {
 					return err
 				}
